@@ -87,6 +87,10 @@ def build(ck):
         S.oblige('post', out.normal, tag=f'{ci.name}:{"inverse-left" if side == 0 else "inverse-right"}:apply-succeeds')
     ck.explore(f'{RULES}.InverseBinaryRule.check', inverse_pattern, T, axioms=axioms, label='pattern')
 
+    # adjacent block operators with the same layout (scenario of C01: check accepts, apply succeeds, product kept)
+    from props import C01
+    C01.block_rules(ck, T, axioms)
+
     # move-axis / reshape pairs (scenarios of C13), index / pack pairs (scenarios of C12)
     from props import C13, C12
     from theories import indexing as IX
